@@ -20,9 +20,9 @@ Proof. unfold aremove. now rewrite filter_In. Qed.
 (* ---------- what may happen to an operation record ---------- *)
 Definition mine (c : cop) (r : resp) : Prop := r_mid r = o_mid c.
 Definition reply_mine (c : cop) (o : oneshot) : Prop := match o with OsFilled (Some r) => mine c r | _ => True end.
-Definition reply_ok (c : cop) (a b : oneshot) : Prop := a = b \/ (a = OsEmpty /\ reply_mine c b).
-(* identity preserved; the item channel only grows, the one-shot is written at most once, and both only
-   ever receive responses that carry the operation's own message id *)
+Definition reply_ok (c : cop) (a b : oneshot) : Prop := a = b \/ reply_mine c b.
+(* identity preserved; the item channel only grows, and both it and the one-shot only ever receive responses that carry the operation's
+   own message id *)
 Definition cext (c c' : cop) : Prop :=
   o_mid c' = o_mid c /\ o_kind c' = o_kind c /\
   (exists extra, o_items c' = o_items c ++ extra /\ Forall (mine c) extra) /\
@@ -33,11 +33,9 @@ Lemma cext_trans a b c : cext a b -> cext b c -> cext a c.
 Proof. intros (M1 & K1 & (x1 & P1 & F1) & R1) (M2 & K2 & (x2 & P2 & F2) & R2). repeat split; try congruence.
   - exists (x1 ++ x2). rewrite P2, P1, app_assoc. split; [reflexivity|]. apply Forall_app. split; [assumption|].
     eapply Forall_impl; [|exact F2]. unfold mine. intros r. congruence.
-  - unfold reply_ok in *. destruct R1 as [E1|[E1 Q1]]; destruct R2 as [E2|[E2 Q2]].
-    + left. congruence.
-    + right. split; [congruence|]. unfold reply_mine, mine in *. destruct (o_reply c) as [|[r|]|]; auto. congruence.
-    + right. split; [assumption|]. now rewrite <- E2.
-    + right. split; [assumption|]. unfold reply_mine, mine in *. destruct (o_reply c) as [|[r|]|]; auto. congruence.
+  - unfold reply_ok in *. destruct R2 as [E2|Q2].
+    + rewrite <- E2. exact R1.
+    + right. unfold reply_mine, mine in *. destruct (o_reply c) as [|[r|]|]; auto. congruence.
 Qed.
 
 (* what a caller can ever be handed carries the operation's own message id *)
@@ -45,7 +43,7 @@ Definition wfpay (c : cop) : Prop := Forall (mine c) (o_items c) /\ reply_mine c
 Lemma wfpay_cext c c' : wfpay c -> cext c c' -> wfpay c'.
 Proof. intros [Hi Hr] (M & K & (x & P & F) & R). split.
   - rewrite P. apply Forall_app. split; (eapply Forall_impl; [|eassumption]); unfold mine; intros r; congruence.
-  - destruct R as [<-|[E Q]].
+  - destruct R as [<-|Q].
     + unfold reply_mine, mine in *. destruct (o_reply c) as [|[r|]|]; auto. congruence.
     + unfold reply_mine, mine in *. destruct (o_reply c') as [|[r|]|]; auto. congruence. Qed.
 
@@ -85,13 +83,13 @@ Lemma items_same c c' : o_items c' = o_items c -> exists extra, o_items c' = o_i
 Proof. intros E. exists []. rewrite app_nil_r. now split. Qed.
 Lemma cext_drop_reply c : cext c (drop_reply c).
 Proof. unfold drop_reply. destruct (o_reply c) eqn:E; try apply cext_refl.
-  repeat split; [now apply items_same|]. right. cbn. rewrite E. now split. Qed.
+  repeat split; [now apply items_same|]. right. exact I. Qed.
 Lemma cext_close_chan c : cext c (close_chan c).
 Proof. repeat split; [now apply items_same|now left]. Qed.
 Lemma cext_fill p c : (match p with Some r => mine c r | None => True end) -> cext c (fill_reply p c).
 Proof. intros Hp. unfold fill_reply. destruct (o_reply c) eqn:E; try apply cext_refl. destruct (waiting c).
-  - repeat split; [now apply items_same|]. right. cbn. rewrite E. split; [reflexivity|]. destruct p; exact Hp.
-  - repeat split; [now apply items_same|]. right. cbn. rewrite E. now split. Qed.
+  - repeat split; [now apply items_same|]. right. cbn. destruct p; exact Hp.
+  - repeat split; [now apply items_same|]. right. exact I. Qed.
 (* updates that touch neither identity nor what the caller can receive *)
 Lemma cext_same c c' : o_mid c' = o_mid c -> o_kind c' = o_kind c -> o_items c' = o_items c -> o_reply c' = o_reply c -> cext c c'.
 Proof. intros M K I R. repeat split; try assumption; [now apply items_same|left; now symmetry]. Qed.
@@ -148,7 +146,7 @@ Ltac strip :=
 
 Theorem step_sext s e : keyed s -> sext s (step s e).
 Proof.
-  intros HK. destruct e as [k tmo| | | |how|r|o|o|o|dt]; unfold step.
+  intros HK. destruct e as [k tmo| | | |how|r|o|o|o|dt|k tmo|o]; unfold step.
   - (* Start *) destruct (next_msgid (last s) (inuse s)); try apply sext_refl.
     destruct (is_running s); unfold sext; cbn; apply oext_app; (split; [constructor|exact I]).
   - (* DrvOp *) destruct (is_running s); cbn [negb]; [|apply sext_refl].
@@ -186,6 +184,11 @@ Proof.
   - (* StreamFinish *) destruct (getop s o) as [c|] eqn:Ec; [|apply sext_refl].
     destruct (o_status c); try apply sext_refl; try destruct (fix20 (fx s)); destruct (is_running s); repeat strip.
   - (* Advance *) repeat strip.
+  - (* Alloc *) unfold alloc. destruct (next_msgid (last s) (inuse s)); try apply sext_refl.
+    unfold sext; cbn; apply oext_app; (split; [constructor|exact I]).
+  - (* Enqueue *) unfold enqueue. destruct (getop s o) as [c|] eqn:Ec; [|apply sext_refl].
+    destruct (o_status c) eqn:Es; try apply sext_refl. destruct (is_running s); repeat strip.
+    intros c0 _. repeat split; [now apply items_same|]. right. exact I.
 Qed.
 
 (* ---------- keyed is an invariant ---------- *)
@@ -224,7 +227,7 @@ Ltac brk := repeat match goal with |- context [if ?b then _ else _] => destruct 
 Theorem step_keyed s e : keyed s -> keyed (step s e).
 Proof.
   intros HK. pose proof (step_sext s e HK) as HS.
-  destruct e as [k tmo| | | |how|r|o|o|o|dt]; apply (keyed_gen s _ HK HS); intros p; unfold step.
+  destruct e as [k tmo| | | |how|r|o|o|o|dt|k tmo|o]; apply (keyed_gen s _ HK HS); intros p; unfold step.
   (* Start *)
   1, 2: destruct (next_msgid (last s) (inuse s)); [destruct (is_running s)| |]; intros H; now left.
   (* DrvOp *)
@@ -255,6 +258,10 @@ Proof.
   1, 2: destruct (getop s o) as [c|]; [|now left]; destruct (o_status c); try (now left); try destruct (fix20 (fx s)); destruct (is_running s); now left.
   (* Advance *)
   1, 2: now left.
+  (* Alloc *)
+  1, 2: unfold alloc; destruct (next_msgid (last s) (inuse s)); intros H; now left.
+  (* Enqueue *)
+  1, 2: unfold enqueue; destruct (getop s o) as [c|]; [|now left]; destruct (o_status c); try (now left); destruct (is_running s); now left.
 Qed.
 
 (* ---------- C01, for every schedule and for the code with or without the repairs ---------- *)
